@@ -1276,6 +1276,7 @@ func (s *evSim) checkRound(now time.Time, views map[string]*evView, tasks []*evT
 	var tdesc []string
 	for _, t := range tasks {
 		byF[t.feature] = t
+		r.Probe("task:" + t.feature)
 		var ds []string
 		for _, rn := range evSortedRes(t.target) {
 			ds = append(ds, fmt.Sprintf("%s=%d", rn, t.target[rn]))
@@ -1411,6 +1412,7 @@ func (s *evSim) checkRound(now time.Time, views map[string]*evView, tasks []*evT
 		}
 		perTask[c.feature] = append(perTask[c.feature], v)
 		attempted[c.pod] = true
+		r.Probe("evict-call:" + c.feature)
 		if c.ret {
 			if !c.api {
 				// the executor answered "evicted" without an API request although the model does not know the pod as evicted
